@@ -169,7 +169,7 @@ def instr_modes(I):
     return modes
 
 
-def compile_units(us, gname, scratch, flags):
+def compile_units(us, gname, scratch, gflags):
     """one executable for a list of units -> (ok, log, exe, {unit name: tag})"""
     import c14_exo
     c, h = c14_exo.compile_group(us, gname + ".h")
@@ -177,37 +177,51 @@ def compile_units(us, gname, scratch, flags):
     main = RUN.PRELUDE + '#include "%s.h"\n' % gname + "".join(RUN.instr_function(u, tags[u["name"]]) for u in us) \
         + RUN.dispatch_main(range(len(us)))
     exe = scratch / "units" / gname / "unit"
-    ok, log = RUN.compile_c({gname + ".h": h, gname + ".c": c, "main.c": main}, exe, RUN.gcc_flags(flags))
+    ok, log = RUN.compile_c({gname + ".h": h, gname + ".c": c, "main.c": main}, exe, gflags)
     if ok:
         for u in us:
             u["c_t"] = c
     return ok, log, exe, tags
 
 
-def build_groups(good, scratch, flags):
+def build_groups(ck, good, scratch, flags, byname):
     """group the units by variant into few translation units; units whose C gcc rejects are singled out.
-    -> ({unit name: (exe, tag)}, {unit name: gcc log})"""
+    Instructions without a vector-register operand are compiled on their own (nothing else pulls in
+    <immintrin.h> for them).  -> ({unit name: (exe, tag)}, {unit name: gcc log})"""
     import c14_exo
     built, failed = {}, {}
     groups = {}
     for u in good:
-        groups.setdefault(u["variant"], []).append(u)
-    for v, us in sorted(groups.items()):
+        alone = not any(a["kind"] == "reg" for a in byname[u["instr"]]["sig"])
+        groups.setdefault(u["name"] if alone else "grp_" + u["variant"], []).append(u)
+    for g, us in sorted(groups.items()):
         remaining = list(us)
+        extra = []
         for attempt in range(6):
             if not remaining:
                 break
-            ok, log, exe, tags = compile_units(remaining, "grp_%s_%d" % (v, attempt), scratch, flags)
+            ok, log, exe, tags = compile_units(remaining, "%s_%d" % (g, attempt), scratch, flags + extra)
             if ok:
                 for u in remaining:
                     built[u["name"]] = (exe, tags[u["name"]])
                 break
+            if len(remaining) == 1 and not extra and re.search(r"implicit declaration of function\W+_mm", log):
+                u = remaining[0]
+                errs = [l.strip() for l in log.splitlines() if "implicit declaration" in l or "undefined reference" in l][:3]
+                c, _ = c14_exo.compile_group([u], "x.h")
+                ck.violation("x86:%s:missing-include" % u["instr"],
+                             {"instr": u["instr"], "variant": u["variant"], "procedure": u["src"], "generated_c": c[-1500:],
+                              "gcc_errors": errs},
+                             "a procedure that only calls %s compiles to C without #include <immintrin.h>: %s"
+                             % (u["instr"], "; ".join(errs)[:300]))
+                extra = ["-include", "immintrin.h"]
+                continue
             bad = RUN.failing_functions(log)
             bad_units = [u for u in remaining if u["t_name"] in bad or u["ref_name"] in bad]
             if not bad_units:           # cannot attribute: compile every unit on its own
                 bad_units = remaining
             for u in bad_units:
-                ok1, log1, exe1, tags1 = compile_units([u], "single_" + u["name"], scratch, flags)
+                ok1, log1, exe1, tags1 = compile_units([u], "single_" + u["name"], scratch, flags + ["-include", "immintrin.h"])
                 if ok1:
                     built[u["name"]] = (exe1, 0)
                 else:
@@ -216,6 +230,10 @@ def build_groups(good, scratch, flags):
                     failed[u["name"]] = log1
             remaining = [u for u in remaining if u not in bad_units]
     return built, failed
+
+
+def frag_locals(I):
+    return set(re.findall(r"\(SDecl (\w+)", I["frag"]))
 
 
 def call_site(u):
@@ -239,27 +257,35 @@ def run_instrs(ck, flags, instrs, driver, scratch, variants):
                          "exo cannot build/compile a procedure calling %s: %s" % (u["instr"], u["error"]))
         else:
             good.append(u)
-    built, failed = build_groups(good, scratch, flags)
+    good.sort(key=lambda u: (u["instr"], u["variant"]))
+    built, failed = build_groups(ck, good, scratch, RUN.gcc_flags(flags), byname)
+    compiled_A = set()
     nrep = ck.n(4, 40)
     jobs, meta = [], []
     for u in good:
         I = byname[u["instr"]]
         if u["name"] in failed:
             log = failed[u["name"]]
-            errs = [l.strip() for l in log.splitlines() if "error" in l][:3]
+            errs = [l.strip() for l in log.splitlines() if re.search(r"\\berror\\b", l) and "ld returned" not in l][:3]
             what = "does-not-compile"
             if u["literal"] is None and any(a["kind"] == "size" for a in I["sig"]) and "must be a constant" in log:
                 what = "runtime-size-does-not-compile"
-            ck.violation("x86:%s:%s:%s" % (u["instr"], what, u["variant"]),
+            elif u["variant"] == "B" and u["instr"] in compiled_A:
+                what = "does-not-compile-when-called-twice"
+            ck.violation("x86:%s:%s" % (u["instr"], what),
                          {"instr": u["instr"], "variant": u["variant"], "procedure": u["src"], "call_site_c": call_site(u),
                           "c_instr": I["c_instr"], "gcc": " ".join(["gcc"] + RUN.gcc_flags(flags)), "gcc_errors": errs},
-                         "the C that exo generates for a call of %s is rejected by gcc: %s" % (u["instr"], "; ".join(errs)[:300]))
+                         "the C that exo generates for a call of %s (variant %s) is rejected by gcc: %s"
+                         % (u["instr"], u["variant"], "; ".join(errs)[:300]))
             ck.case("instr-search", (u["name"], "compile"), True, tag="does-not-compile")
             continue
         if u["name"] not in built:
             ck.broken_obligation("harness:unit-not-built:" + u["name"], "")
             continue
         exe, tag = built[u["name"]]
+        if u["variant"] == "A":
+            compiled_A.add(u["instr"])
+        capture = sorted(frag_locals(I) & {a["name"] for a in I["sig"]}) if u["variant"] in ("A", "L") else []
         sv = u["sizevals"]
         cases = []
         modes = instr_modes(I)
@@ -294,17 +320,25 @@ def run_instrs(ck, flags, instrs, driver, scratch, variants):
                     sample={"instr": u["instr"], "variant": u["variant"], "sizes": c["sizes"], "inputs": js(c["data"]),
                             "with_instruction": js(t), "bodies_inlined": js(r)},
                     tag=u["instr"])
-            if t != r:
+            if t == r:
+                ck.corr_agree("instr-search")
+            else:
+                ck.stream("instr-search")["diverge"] += 1
                 szs = ",".join("%s=%s" % kv for kv in sorted(c["sizes"].items()))
-                ck.violation("x86:%s:result-differs" % u["instr"],
+                kind = "name-capture" if capture else "result-differs"
+                ck.violation("x86:%s:%s" % (u["instr"], kind),
                              {"instr": u["instr"], "variant": u["variant"], "sizes": c["sizes"], "inputs": js(c["data"]),
                               "with_instruction": js(t), "bodies_inlined": js(r), "first_difference": first_diff(t, r),
                               "c_instr": I["c_instr"], "procedure": u["src"], "call_site_c": call_site(u),
+                              "captured_names": capture,
                               "layout": [{k: l[k] for k in l} for l in u["layout"]],
                               "gcc": " ".join(["gcc"] + RUN.gcc_flags(flags))},
-                             "%s (%s, variant %s): calling the instruction and inlining its body give different results: %s"
-                             % (u["instr"], szs, u["variant"], first_diff(t, r)))
-            if not I["unmodelled"] and u["variant"] != "B":      # variant B calls twice: not the instruction's own semantics
+                             "%s (%s, variant %s%s): calling the instruction and inlining its body give different results: %s"
+                             % (u["instr"], szs, u["variant"],
+                                ", operands named like the fragment's locals %s" % capture if capture else "",
+                                first_diff(t, r)))
+            # variant B calls twice (not the instruction's own semantics); C identifier capture is outside the model
+            if not I["unmodelled"] and u["variant"] != "B" and not capture:
                 jobs.append(RUN.model_job(u["instr"], dom, u["layout"], I["sig"], c))
                 meta.append((u, I, c, t, r))
     answers = RUN.run_model(driver, jobs) if jobs else []
@@ -426,6 +460,8 @@ def run(ck: common.Check):
         "C `1 << N` follows the x86 shift (count mod 32); for N >= 31 the C is undefined behaviour",
         "contents of ISA-undefined lanes (_mm256_castps128_ps256) are one arbitrary family rundef(i)",
         "exo `size` arguments are >= 1",
+        "the C identifiers of the call site differ from the fragment's local identifiers (C name capture is outside the "
+        "model: searched by variant A, which names the operands like the formals)",
     ]
     ck.cov["instructions"] = {
         "total": len(instrs), "proved": proved, "refuted_with_partial": refuted, "unmodelled": unmodelled,
